@@ -8,8 +8,10 @@ package main
 
 import (
 	"crypto/sha256"
+	"encoding/binary"
 	"fmt"
 	"math"
+	"strings"
 
 	"github.com/deadsy/sdfx/render"
 	"github.com/deadsy/sdfx/sdf"
@@ -110,8 +112,9 @@ func seqRef(l *lattice.Lat3, f *lattice.Field3) []*sdf.Triangle3 {
 	return out
 }
 
-// geoKey identifies a triangle sequence up to 1e-9 (the renderer accumulates cell coordinates, the
-// reference takes them from the lattice).
+// geoKey identifies a triangle sequence up to 1e-6 (the renderer accumulates cell coordinates, the
+// independent reference takes them from the lattice); schedule independence itself is compared bit
+// for bit (exactKey).
 func geoKey(ts []*sdf.Triangle3) string {
 	h := sha256.New()
 	for _, t := range ts {
@@ -120,6 +123,21 @@ func geoKey(ts []*sdf.Triangle3) string {
 		}
 	}
 	return fmt.Sprintf("%d:%x", len(ts), h.Sum(nil)[:8])
+}
+
+// exactKey identifies a triangle sequence bit for bit.
+func exactKey(ts []*sdf.Triangle3) string {
+	h := sha256.New()
+	for _, t := range ts {
+		for _, p := range t {
+			var b [24]byte
+			binary.LittleEndian.PutUint64(b[0:], math.Float64bits(p.X))
+			binary.LittleEndian.PutUint64(b[8:], math.Float64bits(p.Y))
+			binary.LittleEndian.PutUint64(b[16:], math.Float64bits(p.Z))
+			h.Write(b[:])
+		}
+	}
+	return fmt.Sprintf("%x", h.Sum(nil)[:8])
 }
 
 func key3(ts []*sdf.Triangle3) string {
@@ -138,11 +156,13 @@ func (c circle) BoundingBox() sdf.Box2 {
 }
 
 type prepared struct {
-	sc    scen
-	body  func()
-	obs   func() string
-	ref   string
-	indep string // independent sequential reference ("" when none)
+	sc       scen
+	body     func()
+	obs      func() string
+	exact    func() string // bit-exact part of the observation (triangle kinds)
+	ref      string
+	refExact string
+	indep    string // independent sequential reference ("" when none)
 }
 
 func prepare(sc scen, j *vlib.Job) *prepared {
@@ -183,7 +203,7 @@ func prepare(sc scen, j *vlib.Job) *prepared {
 		case "history":
 			p.indep = fmt.Sprint([]string{ra, rb, ra})
 		}
-		key3 := geoKey
+		key3 := func(ts []*sdf.Triangle3) string { return geoKey(ts) + "/" + exactKey(ts) }
 		switch sc.Kind {
 		case "triangles":
 			p.body = func() {
@@ -238,7 +258,22 @@ func prepare(sc scen, j *vlib.Job) *prepared {
 			out = append(out, fmt.Sprintf("%x %x", sha256.Sum256(vos.Files["a.svg"].B), sha256.Sum256(vos.Files["b.svg"].B)))
 		}
 	}
-	p.obs = func() string { return fmt.Sprint(out) }
+	p.obs = func() string {
+		g := make([]string, len(out))
+		for i, o := range out {
+			g[i] = strings.SplitN(o, "/", 2)[0]
+		}
+		return fmt.Sprint(g)
+	}
+	p.exact = func() string {
+		var e []string
+		for _, o := range out {
+			if k := strings.SplitN(o, "/", 2); len(k) == 2 {
+				e = append(e, k[1])
+			}
+		}
+		return fmt.Sprint(e)
+	}
 	// sequential reference: one worker, default schedule, no yields matter (same values)
 	w := sc.Workers
 	sc1 := sc
@@ -257,6 +292,7 @@ func prepare(sc scen, j *vlib.Job) *prepared {
 		j.Violation(sc.Kind+"|"+kind, fmt.Sprintf("%s %s W=%d (default schedule): %v", sc.Kind, sc.Lattice, sc.Workers, x.Faults), sc)
 		return nil
 	}
+	p.refExact = p.exact()
 	p.ref = p.obs()
 	if p.indep != "" && p.indep != p.ref {
 		// the default schedule already disagrees with the sequential reference: report against it
@@ -340,6 +376,8 @@ func main() {
 				j.Violation(sc.Kind+"|"+kind, fmt.Sprintf("%s %s W=%d: %v", sc.Kind, sc.Lattice, sc.Workers, x.Faults), rep())
 			} else if o != p.ref {
 				j.Violation(sc.Kind+"|output-depends-on-schedule", fmt.Sprintf("%s %s W=%d: schedule %v produced %s, sequential reference %s", sc.Kind, sc.Lattice, sc.Workers, x.Choices, o, p.ref), rep())
+			} else if e := p.exact(); e != p.refExact {
+				j.Violation(sc.Kind+"|output-depends-on-schedule", fmt.Sprintf("%s %s W=%d: schedule %v produced vertex bits %s, the default schedule %s", sc.Kind, sc.Lattice, sc.Workers, x.Choices, e, p.refExact), rep())
 			}
 			return true
 		})
@@ -371,7 +409,7 @@ func main() {
 		Rule:        "states = complete executions of the real render pipeline, one per explored schedule; transitions = scheduler steps; non-trivial = distinct operation traces",
 		Samples:     m.Samples,
 		Exhaustive:  true,
-		Bounds:      map[string]any{"preemption_bound": b, "workers": "1,2,3", "scenarios": len(scens), "yield_points": "every 37th/50th/9th evaluation inside the field", "schedule_tree_shards": shards},
+		Bounds:      map[string]any{"preemption_bound": b, "workers": "1,2,3", "scenarios": len(scens), "preemption_bounds_per_scenario": "1-3 (listed per scenario in the samples); octree and svg scenarios unbounded", "yield_points": "inside the field's Evaluate at lattice points whose linear index is a multiple of 37 / 50 / 2 (100 in one thorough scenario)", "schedule_tree_shards": shards},
 		Extra:       map[string]any{"counters": m.Counters},
 		Assumptions: []string{"interleavings at synchronisation operations and at the placed yields inside Evaluate; weak-memory effects are not modelled", "GOMAXPROCS itself is not varied here (the worker count is); DXF and 3MF byte determinism is not explored under the scheduler (their writers run in the single writer goroutine, as ToSVG/ToSTL which are explored)"},
 	})
